@@ -9,7 +9,7 @@
 //   FJSHIM_LOG    log file (appended): "<seq> <op> <path> <off> <len> <ret>\n"
 //   FJSHIM_SCOPE  "all" (default) | "jnl" (only calls on *.jnl files are counted for kill/fail)
 //   FJSHIM_KILL   "n" or "n:t"
-//   FJSHIM_FAIL   "n:kind:sticky"   kind = eio_write | enospc_write | short_enospc | eio_sync ; sticky = 0|1
+//   FJSHIM_FAIL   "n:kind:sticky"   kind = eio_write | enospc_write | short_enospc | eio_sync | short_only ; sticky = 0|1
 //
 // Build: gcc -O2 -shared -fPIC -o fjshim.so fjshim.c -ldl -lpthread
 #define _GNU_SOURCE
@@ -123,6 +123,7 @@ static void init(void) {
       else if (!strcmp(kind, "enospc_write")) fail_kind = 2;
       else if (!strcmp(kind, "short_enospc")) fail_kind = 3;
       else if (!strcmp(kind, "eio_sync")) fail_kind = 4;
+      else if (!strcmp(kind, "short_only")) fail_kind = 5;
     }
   }
 }
@@ -197,7 +198,7 @@ static long pre_call(const char *op, const char *path, int is_write, long long o
 
 static int fail_now(long idx, int is_write, int is_sync) {
   if (fail_kind == 0 || idx < 0) return 0;
-  int applies = (is_write && fail_kind <= 3) || (is_sync && fail_kind == 4);
+  int applies = (is_write && (fail_kind <= 3 || fail_kind == 5)) || (is_sync && fail_kind == 4);
   if (!applies) return 0;
   if (idx == fail_n || (fail_sticky && fail_fired && idx > fail_n)) {
     fail_fired = 1;
@@ -357,11 +358,15 @@ static ssize_t do_write(int fd, const void *buf, size_t len, long long off, int 
       errno = ENOSPC;
       ret = -1;
     }
+  } else if (fk == 5) {
+    // a legal short write: half of the bytes are written and reported, no error follows
+    size_t part = len > 1 ? len / 2 : len;
+    ret = positional ? r_pwrite64(fd, buf, part, off) : r_write(fd, buf, part);
   } else {
     ret = positional ? r_pwrite64(fd, buf, len, off) : r_write(fd, buf, len);
   }
   int e = errno;
-  logline(seq_all - 1, fk ? "writeFAIL" : "write", p, at, (long long)len, ret);
+  logline(seq_all - 1, fk == 5 ? "writeSHORT" : (fk ? "writeFAIL" : "write"), p, at, (long long)len, ret);
   pthread_mutex_unlock(&mu);
   errno = e;
   return ret;
